@@ -1137,3 +1137,70 @@ mod tests {
     }
 }
 
+
+#[cfg(uflow_verif)]
+pub use send_rate::{SendRateComp, FeedbackData, VerifRateState};
+
+/// Scalar projection of the half connection's internal state (verification builds only).
+#[cfg(uflow_verif)]
+#[derive(Clone,Debug,PartialEq)]
+pub struct VerifSnapshot {
+    pub tx_base: u32,
+    pub tx_next: u32,
+    pub tx_alloc: usize,
+    pub tx_total: usize,
+    pub tx_queue: usize,
+    pub pend_len: usize,
+    pub resend_len: usize,
+    pub f_log_base: u32,
+    pub f_win_base: u32,
+    pub f_next: u32,
+    pub rf_base: u32,
+    pub ackq_len: usize,
+    pub rx_base: u32,
+    pub rx_end: u32,
+    pub rx_alloc: usize,
+    pub flush_alloc: isize,
+    pub flush_id: u32,
+    pub sync_reply: bool,
+    pub rate: VerifRateState,
+}
+
+#[cfg(uflow_verif)]
+impl HalfConnection {
+    pub fn verif_snapshot(&self) -> VerifSnapshot {
+        VerifSnapshot {
+            tx_base: self.packet_sender.base_id(),
+            tx_next: self.packet_sender.next_id(),
+            tx_alloc: self.packet_sender.verif_alloc(),
+            tx_total: self.packet_sender.total_size(),
+            tx_queue: self.packet_sender.pending_count(),
+            pend_len: self.pending_queue.len(),
+            resend_len: self.resend_queue.len(),
+            f_log_base: self.frame_queue.verif_log_base(),
+            f_win_base: self.frame_queue.base_id(),
+            f_next: self.frame_queue.next_id(),
+            rf_base: self.frame_ack_queue.base_id(),
+            ackq_len: self.frame_ack_queue.verif_len(),
+            rx_base: self.packet_receiver.base_id(),
+            rx_end: self.packet_receiver.verif_end_id(),
+            rx_alloc: self.packet_receiver.verif_alloc(),
+            flush_alloc: self.flush_alloc,
+            flush_id: self.flush_id,
+            sync_reply: self.sync_reply,
+            rate: self.send_rate_comp.verif_state(),
+        }
+    }
+
+    pub fn verif_set_flush_alloc(&mut self, value: isize) {
+        self.flush_alloc = value;
+    }
+
+    pub fn verif_emit_frames(&mut self, now_ms: u64, rtt_ms: u64, rto_ms: u64, sink: &mut impl FrameSink) {
+        self.emit_frames(now_ms, rtt_ms, rto_ms, self.flush_id, sink);
+    }
+
+    pub fn verif_bump_flush_id(&mut self) {
+        self.flush_id = self.flush_id.wrapping_add(1);
+    }
+}
